@@ -284,7 +284,7 @@ func c13Scaling(c *Ctx, sx *symx.Ctx) {
 	}
 	var tableUse ssa.Value
 	ssau.ForEachInstr(fn, false, func(in ssa.Instruction) {
-		if l, ok := in.(*ssa.Lookup); ok && l.CommaOk && isBoostMap(l.X.Type()) && !optLoad(l.X, "ContextBoosts") {
+		if l, ok := in.(*ssa.Lookup); ok && isBoostMap(l.X.Type()) && !optLoad(l.X, "ContextBoosts") {
 			tableUse = l.X
 		}
 	})
@@ -299,8 +299,8 @@ func c13Scaling(c *Ctx, sx *symx.Ctx) {
 			var mk *ssa.MakeMap
 			same := true
 			for _, ret := range ssau.ReturnsOf(g) {
-				m, ok := ret.Results[0].(*ssa.MakeMap)
-				if !ok || (mk != nil && mk != m) {
+				m := c13ResolveMake(ret.Results[0])
+				if m == nil || (mk != nil && mk != m) {
 					same = false
 				}
 				mk = m
@@ -331,11 +331,16 @@ func c13Scaling(c *Ctx, sx *symx.Ctx) {
 	// updates of the table: copies from ContextBoosts (range key/value) and guarded max updates
 	var copies, others []*ssa.MapUpdate
 	loops := ssau.RangeLoops(home)
-	for _, ref := range *table.Referrers() {
-		mu, ok := ref.(*ssa.MapUpdate)
-		if !ok || mu.Map != ssa.Value(table) {
-			continue
-		}
+	var updates []*ssa.MapUpdate
+	bodies := append([]*ssa.Function{home}, home.AnonFuncs...)
+	for _, b := range bodies {
+		ssau.ForEachInstr(b, false, func(in ssa.Instruction) {
+			if mu, ok := in.(*ssa.MapUpdate); ok && c13ResolveMake(mu.Map) == table {
+				updates = append(updates, mu)
+			}
+		})
+	}
+	for _, mu := range updates {
 		isCopy := false
 		for _, l := range loops {
 			if l.IsMap && isCtx(l.Over) && l.InLoop(mu.Block()) {
@@ -355,6 +360,11 @@ func c13Scaling(c *Ctx, sx *symx.Ctx) {
 	for _, ref := range *table.Referrers() {
 		switch x := ref.(type) {
 		case *ssa.MapUpdate, *ssa.Lookup, *ssa.Return, *ssa.DebugRef:
+		case *ssa.Store:
+			// kept in a local variable that a closure of the same function captures
+			if al, ok := x.Addr.(*ssa.Alloc); !ok || x.Val != ssa.Value(table) || al.Parent() != home {
+				r.Bad("O-2", fk+"#boost-table-escapes", c.P.Pos(x.Pos()), "the boost table is stored outside the function that builds it")
+			}
 		case *ssa.Call:
 			if n := ssau.CallName(x); n != "builtin.len" {
 				r.Bad("O-2", fk+"#boost-table-escapes", c.P.Pos(x.Pos()), "the boost table is handed to "+n+", which may rewrite it")
@@ -364,38 +374,82 @@ func c13Scaling(c *Ctx, sx *symx.Ctx) {
 		}
 	}
 	r.Check(len(copies) == 1, "O-2", fk+"#context-boosts-copied", c.P.Pos(table.Pos()), "termBoost[k] = v for every (k, v) of ContextBoosts", fmt.Sprintf("%d verbatim copies of ContextBoosts into the boost table (want 1)", len(copies)))
-	cd := ssau.ControlDeps(home)
 	for i, mu := range others {
 		key := fmt.Sprintf("%s#emphasis-update-%d", fk, i+1)
-		// must come after the copy and be a guarded max: if table[k] < c { table[k] = c }
+		body := mu.Parent()
+		bf := sx.Of(body)
+		cd := ssau.ControlDeps(body)
+		// must come after the copy: directly, or — inside a local closure — at every call of the closure
 		after := true
+		var anchors []*ssa.BasicBlock
+		if body == home {
+			anchors = []*ssa.BasicBlock{mu.Block()}
+		} else {
+			ssau.ForEachInstr(home, false, func(in ssa.Instruction) {
+				if call, ok := in.(*ssa.Call); ok {
+					if mc, ok := call.Common().Value.(*ssa.MakeClosure); ok && mc.Fn == ssa.Value(body) {
+						anchors = append(anchors, call.Block())
+					}
+				}
+			})
+			if len(anchors) == 0 {
+				after = false
+			}
+		}
 		for _, cp := range copies {
-			// the copy loop's exit dominates this update
 			for _, l := range loops {
-				if l.InLoop(cp.Block()) && !(l.Done.Dominates(mu.Block()) || l.Done == mu.Block()) {
-					after = false
+				for _, ab := range anchors {
+					if l.InLoop(cp.Block()) && !(l.Done.Dominates(ab) || l.Done == ab) {
+						after = false
+					}
 				}
 			}
 		}
-		cv, isC := ssau.ConstFloat(mu.Value)
+		// a guarded max: if table[k] < v { table[k] = v } with the same v
 		guarded := false
 		for _, d := range ssau.TransitiveControlDeps(cd, mu.Block()) {
 			op, x, y, ok := ssau.CondOf(d.If().Cond)
-			if !ok || !d.Then {
+			if !ok || !d.Then || op != token.LSS {
 				continue
 			}
-			if lk, ok := x.(*ssa.Lookup); ok && lk.X == ssa.Value(table) && f.E(lk.Index) == f.E(mu.Key) {
-				if k, ok := ssau.ConstFloat(y); ok && isC && k == cv && op == token.LSS {
+			if lk, ok := x.(*ssa.Lookup); ok && c13ResolveMake(lk.X) == table && bf.E(lk.Index) == bf.E(mu.Key) {
+				if y == mu.Value || bf.E(y) == bf.E(mu.Value) {
 					guarded = true
 				}
 			}
 		}
-		r.Check(after && guarded && isC && cv >= 1, "O-2", key, c.P.Pos(mu.Pos()), fmt.Sprintf("if table[k] < %v { table[k] = %v } after the context copy", cv, cv), "an entry of the boost table is overwritten without the guard `table[k] < c` (or before the context boosts are copied in): a context boost can be replaced by a smaller factor, lowering the score of commands that contain the boosted word")
+		// the value is at least 1: a constant, or a parameter of the closure to which every call passes one
+		atLeast1 := false
+		desc := bf.Plain(mu.Value)
+		if cv, isC := ssau.ConstFloat(mu.Value); isC {
+			atLeast1 = cv >= 1
+		} else if p, isP := mu.Value.(*ssa.Parameter); isP && body != home {
+			idx := -1
+			for k, q := range body.Params {
+				if q == p {
+					idx = k
+				}
+			}
+			n := 0
+			atLeast1 = true
+			ssau.ForEachInstr(home, false, func(in ssa.Instruction) {
+				if call, ok := in.(*ssa.Call); ok {
+					if mc, ok := call.Common().Value.(*ssa.MakeClosure); ok && mc.Fn == ssa.Value(body) {
+						n++
+						if cv, isC := ssau.ConstFloat(call.Common().Args[idx]); !isC || cv < 1 {
+							atLeast1 = false
+						}
+					}
+				}
+			})
+			atLeast1 = atLeast1 && n > 0 && idx >= 0
+		}
+		r.Check(after && guarded && atLeast1, "O-2", key, c.P.Pos(mu.Pos()), fmt.Sprintf("if table[k] < %s { table[k] = %s } after the context copy", desc, desc), "an entry of the boost table is overwritten without the guard `table[k] < c` (or before the context boosts are copied in): a context boost can be replaced by a smaller factor, lowering the score of commands that contain the boosted word")
 	}
 	// lookup: table[term] and postings[term] share the term; guard ok && b > 0; else 1
 	var lk *ssa.Lookup
 	ssau.ForEachInstr(fn, false, func(in ssa.Instruction) {
-		if l, ok := in.(*ssa.Lookup); ok && l.X == tableUse && l.CommaOk {
+		if l, ok := in.(*ssa.Lookup); ok && l.X == tableUse {
 			lk = l
 		}
 	})
@@ -463,6 +517,9 @@ func c13Scaling(c *Ctx, sx *symx.Ctx) {
 					if sc == phi.Block() && cut[[2]int{pred.Index, k2}] {
 						viaOK = true
 					}
+				}
+				if !lk.CommaOk {
+					viaOK = true // a missing entry reads as 0, which the b > 0 test rejects
 				}
 				if viaOK && viaPos {
 					bSeen = true
@@ -532,6 +589,56 @@ func c13Scaling(c *Ctx, sx *symx.Ctx) {
 		walk(bp, 0)
 		r.Check(okPos && reachesAdd, "O-2", pk+"#boost-in-positive-position", c.P.Pos(pp.Pos()), "the boost occurs only as a factor of a product added to scores[docID]", "inside the scoring loop "+whyPos)
 	}
+}
+
+// c13ResolveMake: the map made by v: the make itself, or a load of a local
+// variable (possibly captured by a closure of the same function) that only
+// ever holds one made map.
+func c13ResolveMake(v ssa.Value) *ssa.MakeMap {
+	switch x := v.(type) {
+	case *ssa.MakeMap:
+		return x
+	case *ssa.UnOp:
+		if x.Op != token.MUL {
+			return nil
+		}
+		var cell *ssa.Alloc
+		switch a := x.X.(type) {
+		case *ssa.Alloc:
+			cell = a
+		case *ssa.FreeVar:
+			// the binding of the free variable in the enclosing function
+			fn := a.Parent()
+			idx := -1
+			for i, fv := range fn.FreeVars {
+				if fv == a {
+					idx = i
+				}
+			}
+			if fn.Parent() != nil && idx >= 0 {
+				ssau.ForEachInstr(fn.Parent(), false, func(in ssa.Instruction) {
+					if mc, ok := in.(*ssa.MakeClosure); ok && mc.Fn == ssa.Value(fn) {
+						cell, _ = mc.Bindings[idx].(*ssa.Alloc)
+					}
+				})
+			}
+		}
+		if cell == nil {
+			return nil
+		}
+		var mk *ssa.MakeMap
+		for _, ref := range *cell.Referrers() {
+			if st, ok := ref.(*ssa.Store); ok && st.Addr == ssa.Value(cell) {
+				m, ok := st.Val.(*ssa.MakeMap)
+				if !ok || (mk != nil && mk != m) {
+					return nil
+				}
+				mk = m
+			}
+		}
+		return mk
+	}
+	return nil
 }
 
 // resultValue2: component i of a comma-ok lookup.
